@@ -243,6 +243,19 @@ def end_to_end(ctx):
         o = worlds.gen_opts(rng, allow=("repeat",))
         o["verbose"] = 1
         cases.append(cw.Case(w, o))
+    # several layers run in subprocesses (one after another behind a layer that cannot be torn down, or -j N):
+    # every process writes the reports of its own tests into the same directory
+    for i in range(6 if ctx.quick() else 100):
+        w = worlds.gen_world(rng, n_layers=rng.choice([3, 4, 5]), tests_per_layer=(1, 3),
+                             kinds=["pass", "pass", "fail", "error", "subFail2"], p_fault=0.0, p_write=0.0)
+        o = {"verbose": 1, "processes": rng.choice([1, 1, 2, 3])}
+        if o["processes"] == 1:
+            non_unit = sorted([k for k, l in enumerate(w["layers"]) if l["kind"] != "unit"],
+                              key=lambda k: worlds.layer_name(w, k))
+            if non_unit:
+                w["layers"][non_unit[0]]["tearDown"] = True
+                w["layers"][non_unit[0]]["tearDownFaults"] = [[999999, 2]]
+        cases.append(cw.Case(w, o, "children"))
 
     def one(i_c):
         i, c = i_c
@@ -264,6 +277,18 @@ def end_to_end(ctx):
         ctx.count(("e2e", str(c.world)[:3000]), sample=None)
         ctx.bump("end-to-end")
         case = c.replay_obj()
+        # every test that ran (in whatever process) has its report
+        # (skips are not recorded in the reports: only tests with a success / failure / error event count)
+        ops = cw.test_ops(ctx, c.world)
+        recorded = ("addSuccess", "addFailure", "addError", "addSubTest:fail", "addSubTest:error",
+                    "addExpectedFailure", "addUnexpectedSuccess")
+        ran = sorted({e["t"] for e in c.obs.events if e.get("ev") == "tstart"
+                      and any(op in recorded for op in ops[e["t"]] if isinstance(op, str))})
+        missing = [t for t in ran if not any(f.endswith(".T%d.xml" % t) for f in c.files)]
+        if missing and not c.obs.timeout:
+            ctx.violation("end-to-end: tests %r ran (%d processes) but have no report among %r" % (
+                missing, len(c.obs.procs), sorted(c.files)[:8]), case, signature="C17:missing-report")
+            continue
         for f, text in c.files.items():
             try:
                 root = ElementTree.fromstring(text)
